@@ -247,6 +247,17 @@ var scenarios = []*scenario{
   (dotimes (i 4) (setq out (add out (channel-pop r))))
   out)`,
 		check: multisetFIFO([]string{"a1", "a2", "b1", "b2"}, map[string][]string{"a": {"a1", "a2"}, "b": {"b1", "b2"}}), canon: sortedVal},
+	{name: "a7-buffered-close-range-two-consumers", group: "a", quick: 2, thorough: 3,
+		src: `(let ((c (make-channel 2)) (r (make-channel 8)) (d (make-channel 2)) (out nil))
+  (run (progn (range (lambda (x) (channel-push r x)) c) (channel-push d t)))
+  (run (progn (range (lambda (x) (channel-push r x)) c) (channel-push d t)))
+  (channel-push c 'p1) (channel-push c 'p2) (channel-push c 'p3)
+  (channel-close c)
+  (channel-pop d) (channel-pop d)
+  (channel-close r)
+  (range (lambda (x) (setq out (add out x))) r)
+  out)`,
+		check: multisetFIFO([]string{"p1", "p2", "p3"}, nil), canon: sortedVal},
 	// ---- (c) synchronised objects / hash of counters
 	{name: "c1-hash-of-counters", group: "c", yield: true, quick: 2, thorough: 3,
 		src: `(let ((h (make-hash-table)) (d (make-channel 2)))
